@@ -36,7 +36,8 @@ class ASTWalker:
             node = node.func
         elif isinstance(node, OverloadedFuncDef):
             if node.impl is not None:
-                node = node.impl
+                # A decorated implementation (static method, class method, ...) is wrapped like any decorated function
+                node = node.impl.func if isinstance(node.impl, Decorator) else node.impl
             else:
                 # No implementation: a property with a setter, or overloads of a protocol / stub. Take the first variant.
                 first_item = node.items[0]
